@@ -435,14 +435,25 @@ def check_tsum(c, a):
     st = strengths(a['seed'], len(terms))
     rng = max(max(i for _, i in t) - min(i for _, i in t) for t in terms)
     key = 'expectation_value_terms_sum:%s' % ('env' if c.env else c.bc if c.finite else 'infinite:range=%d' % rng)
-    try:
-        got, _ = c.M.expectation_value_terms_sum(TermList(terms, st))
-    except Exception as e:  # noqa: BLE001
-        return [('%s:exception:%s' % (key, type(e).__name__), '%s: %s\n%s' % (terms, e, traceback.format_exc()[-1200:]))]
-    ref = sum(s * c.D.term(t) for s, t in zip(st, terms))
-    if c.env:  # (documented: without the norms)
-        ref = ref / (c.M.bra.norm * c.M.ket.norm)
-    return [] if close(got, ref) else [(key, '%s: got %r, dense sum %r' % (terms, got, ref))]
+    norms = c.M.bra.norm * c.M.ket.norm if c.env else 1.0  # (documented for the environment: without the norms)
+    ref = sum(s * c.D.term(t) for s, t in zip(st, terms)) / norms
+    given = np.array(st)  # the caller's array
+    tl = TermList([list(t) for t in terms], given)
+    out = []
+    for rep in ('', ':second-evaluation-of-the-same-TermList'):
+        try:
+            got, _ = c.M.expectation_value_terms_sum(tl)
+        except Exception as e:  # noqa: BLE001
+            return out + [('%s:exception:%s%s' % (key, type(e).__name__, rep), '%s: %s\n%s' % (terms, e, traceback.format_exc()[-1200:]))]
+        if not close(got, ref):
+            out.append((key + rep, '%s: got %r, dense sum %r' % (terms, got, ref)))
+    # the library may reorder / combine the operators of the TermList in place, but it has to stay the same operator sum,
+    # and the strengths handed in by the caller are his own
+    if len(tl.terms) != len(terms) or not close(sum(s * c.D.term(t) for s, t in zip(tl.strength, tl.terms)) / norms, ref):
+        out.append(('expectation_value_terms_sum:changes-the-meaning-of-its-argument', '%s with strengths %s became %s, %s' % (terms, st, tl.terms, tl.strength)))
+    if not np.array_equal(given, st):
+        out.append(('expectation_value_terms_sum:modifies-strength-array-of-the-caller', '%s: strengths %s became %s' % (terms, st, given)))
+    return out
 
 
 def corr_ref(c, op1, op2, i, j, opstr, sof):
